@@ -81,6 +81,17 @@ Definition sorter_ok (srt : sorter) : Prop :=
 Lemma stable_sorter_ok : sorter_ok stable_sorter.
 Proof. intros le l T R. split; [apply stable_sort_perm|apply stable_sort_sorted; assumption]. Qed.
 
+Lemma sorted_transfer {A B} (R : A -> B -> Prop) (le : A -> A -> bool) (le' : B -> B -> bool) l l' :
+  (forall a a' b b', R a a' -> R b b' -> le a b = le' a' b') -> Forall2 R l l' ->
+  StronglySorted (fun a b => le a b = true) l -> StronglySorted (fun a b => le' a b = true) l'.
+Proof.
+  intros H F. induction F as [|a a' l l' Ra F IH]; intros S; [constructor|]. inversion S as [|? ? St Fa]; subst.
+  constructor; [apply IH, St|]. clear IH St S. induction F as [|b b' l l' Rb F IH]; constructor.
+  - inversion Fa; subst. rewrite <- (H _ _ _ _ Ra Rb). assumption.
+  - apply IH. inversion Fa; assumption.
+Qed.
+
+
 (* ------------------------------------------------------------------ scratch names never capture *)
 Fixpoint prefixed (n : nat) (s : string) : string := match n with O => s | S k => prefixed k (sapp "_" s) end.
 Lemma prefixed_length n s : String.length (prefixed n s) = (n + String.length s)%nat.
